@@ -869,6 +869,9 @@ func (p *Path) reportViolation(kind, label, site, msg string, stack []string) {
 		e.inconclusive(fmt.Sprintf("violation candidate %s %s: model query %s", kind, label, why))
 		return
 	}
+	if debugForks {
+		fmt.Printf("VIOLATION-CANDIDATE: %s %s %s covers=%v\n", kind, label, site, p.covers)
+	}
 	v := Violation{Kind: kind, Label: label, Site: site, Msg: msg, Prefix: append([]int{}, p.decisions...),
 		Inputs: vals, Covers: append([]string{}, p.covers...), Stack: stack}
 	e.mu.Lock()
